@@ -345,6 +345,8 @@ def leaf_args(r, kind, pre, name, mode="any", jsonable=False):
             if wild:
                 return anyv()
             c = r.pct()
+            if c < 6:
+                return [sc() for _ in range(r.between(16, 24))]  # a long membership list
             if c < 60:
                 return [sc() for _ in range(r.between(0, 4))]
             if c < 80:
@@ -375,7 +377,7 @@ def leaf_args(r, kind, pre, name, mode="any", jsonable=False):
         return (), kw
     if name in ("factor_of", "has_factor"):
         if mode == "any":
-            v = anyv() if r.coin() else r.choice([0, 12, 3, 0.0, "50%", "%d", 2.5])
+            v = anyv() if r.coin() else r.choice([0, 12, 3, 0.0, "50%", "%d", 2.5, "%(a)s", "%(k)d", {"b": 1}, {}])
         else:
             v = r.choice(NONZERO)
         return (), {"value": v}
